@@ -330,7 +330,9 @@ impl MeasurementNoiseEstimator for AveragingBuffer {
     }
 
     fn get_noise_estimate(&self) -> f64 {
-        self.variance() / 4.
+        // Identical (or identically clamped) delays give a sample variance of exactly
+        // zero, but a measurement is never more precise than the timestamp resolution.
+        (self.variance() / 4.).max(MIN_NOISE_ESTIMATE)
     }
 
     fn is_outlier(&self, delay: Self::MeasurementDelay, threshold: f64) -> bool {
@@ -712,6 +714,10 @@ pub(super) struct SourceState<
 >(SourceStateInner<D, N>);
 
 const MIN_DELAY: NtpDuration = NtpDuration::from_exponent(-18);
+
+/// Lower bound for the measurement noise (variance) estimate: the square of the
+/// resolution of an NTP timestamp (2^-32 s).
+const MIN_NOISE_ESTIMATE: f64 = 1.0 / (4_294_967_296.0 * 4_294_967_296.0);
 
 impl<D: Debug + Copy + Clone, N: MeasurementNoiseEstimator<MeasurementDelay = D> + Clone>
     SourceState<D, N>
